@@ -765,7 +765,12 @@ func (s *programState) makeAllotment(monetary *big.Int, items []parser.Allotment
 	}
 
 	if remainingAllotmentIndex != -1 {
-		allotments[remainingAllotmentIndex] = new(big.Rat).Sub(big.NewRat(1, 1), totalAllotment)
+		remainingAllotment := new(big.Rat).Sub(big.NewRat(1, 1), totalAllotment)
+		// the other portions cannot be greater than one (there would be a negative amount left for "remaining")
+		if remainingAllotment.Sign() == -1 {
+			return nil, InvalidAllotmentSum{ActualSum: *totalAllotment}
+		}
+		allotments[remainingAllotmentIndex] = remainingAllotment
 	} else if totalAllotment.Cmp(big.NewRat(1, 1)) != 0 {
 		return nil, InvalidAllotmentSum{ActualSum: *totalAllotment}
 	}
